@@ -24,55 +24,132 @@ from harness import core
 _KINDS = ("script", "ap")
 
 
-def eval_case(case: dict) -> dict:
-    """Realise, build with the real Builder, judge with the model-free oracle. Picklable result."""
-    core.use_repo_on_path()
-    from harness import lib_buildalg as L
-
-    out: dict = {"case": case}
-    try:
-        if case["kind"] == "script":
-            R = L.realise_script(case["script"])
-        else:
-            R = L.realise_lowlevel(case["ap"])
-    except Exception as e:  # noqa: BLE001 - not constructible with the real constructors: not a build matter
-        out["unrealisable"] = f"{type(e).__name__}: {str(e)[:100]}"
-        return out
-    ap = R.ap
-    out["ap"] = ap
-    o = L.observe(R)
-    out["real"] = L.real_view(o)
-    out["model_err"] = o.get("model_err")
-    out["msg"] = o.get("msg")
-    out["oracle"] = L.oracle(ap, o)
-    leaked, _ = L.ap_free_args(ap)
-    reach = L.ap_reachable(ap)
-    out["leaky"] = bool({a for a in leaked if a in reach})
-    out["reuse"] = L.ap_reuse(ap)
-    if case.get("public") and ap["graphs"][0]["args"] is not None:
-        # the public entry point must come to the same verdict and pass the same oracle
-        o3 = L.observe_public(R)
-        built1 = o["ok"] and o.get("model_err") is None
-        out["public_same"] = bool(o3["ok"]) == bool(built1)
-        for k, w in L.oracle(ap, o3):
-            if (k, w) not in out["oracle"]:
-                out["oracle"].append((k, "via spox.build: " + w))
-    if case.get("twin"):
-        # the same abstract program through the low-level API must look the same to the Builder
+def _observe_all(L, R, ap) -> dict:
+    """Oracle first (public surface + proto only), then every observable facet, each guarded."""
+    out: dict = {"infra": []}
+    pub = L.build_public(R)
+    out["verdict"] = "ok" if pub["ok"] else str(pub["err"])
+    out["msg"] = pub.get("msg")
+    # --- model-free oracle: nothing of Builder's internals is involved
+    out["oracle"] = L.oracle(ap, pub)
+    # --- emission read from the proto
+    proto = pub["_model"] if pub["ok"] else pub.get("_unchecked")
+    out["trace"] = None
+    if proto is not None:
         try:
-            o2 = L.observe(L.realise_lowlevel(ap))
-            out["twin_same"] = L.real_view(o2) == out["real"] and o2.get("model_err") == out["model_err"]
+            out["trace"] = L.trace_from_proto(ap, proto)
         except Exception as e:  # noqa: BLE001
-            out["twin_same"] = f"{type(e).__name__}: {str(e)[:100]}"
+            out["unobservable"] = {"trace": f"{type(e).__name__}: {e}"[:200]}
+    # --- Builder internals, facet by facet
+    try:
+        io = L.observe_internals(R)
+    except Exception as e:  # noqa: BLE001 - observe_internals guards itself; belt and braces
+        io = {"facets": {}, "unobservable": {f: f"{type(e).__name__}: {e}"[:200] for f in L.INTERNAL_FACETS}, "ok": None, "err": None}
+    out["facets"] = io["facets"]
+    out.setdefault("unobservable", {}).update(io["unobservable"])
+    out["internal_verdict"] = None if io["ok"] is None else ("ok" if io["ok"] else io["err"])
     return out
 
 
-def _depth(ap: dict) -> int:
-    owner = {}
+def eval_case(case: dict) -> dict:
+    """Realise, build through the public surface, judge with the model-free oracle, then observe the
+    Builder's internals. Picklable result; never raises (an unexpected exception becomes `infra`)."""
+    out: dict = {"case": case}
+    try:
+        core.use_repo_on_path()
+        from harness import lib_buildalg as L
+
+        try:
+            if case["kind"] == "script":
+                R = L.realise_script(case["script"])
+            else:
+                R = L.realise_lowlevel(case["ap"])
+        except Exception as e:  # noqa: BLE001 - not constructible with the real constructors: not a build matter
+            out["unrealisable"] = f"{type(e).__name__}: {str(e)[:100]}"
+            return out
+        ap = R.ap
+        out["ap"] = ap
+        leaked, _ = L.ap_free_args(ap)
+        reach = L.ap_reachable(ap)
+        out["leaky"] = bool({a for a in leaked if a in reach})
+        out["reuse"] = L.ap_reuse(ap)
+        out.update(_observe_all(L, R, ap))
+        if case.get("public") and ap["graphs"][0]["args"] is not None:
+            # the public entry point `spox.build` must come to the same verdict and pass the same oracle
+            o3 = L.observe_public(R)
+            out["public_same"] = bool(o3["ok"]) == (out["verdict"] == "ok")
+            for k, w in L.oracle(ap, o3):
+                if (k, w) not in out["oracle"]:
+                    out["oracle"].append((k, "via spox.build: " + w))
+        if case.get("twin"):
+            # the same abstract program through the low-level API must look the same to the Builder
+            try:
+                o2 = _observe_all(L, L.realise_lowlevel(ap), ap)
+                out["twin_same"] = all(o2[k] == out[k] for k in ("verdict", "trace", "facets"))
+            except Exception as e:  # noqa: BLE001
+                out["twin_same"] = f"{type(e).__name__}: {str(e)[:100]}"
+    except Exception as e:  # noqa: BLE001 - never let one case take the run down
+        import traceback
+
+        out["infra_error"] = f"{type(e).__name__}: {e}"[:300] + " | " + traceback.format_exc()[-400:]
+    return out
+
+
+def _shape_stats(ap: dict) -> dict:
+    """Nesting depth (by creation-time ownership) and whether some control-flow node's output is
+    consumed from two unrelated scopes of different depth (the interleaving the relaxation order is
+    sensitive to). Evidence only."""
+    owner: dict[int, int] = {}
     for n, nd in enumerate(ap["nodes"]):
         for g in nd["s"]:
             owner.setdefault(g, n)
-    return len(ap["graphs"])
+    # creation-time home of a node: the innermost graph whose results/inputs reach it first
+    home: dict[int, int] = {}
+
+    def visit(n, g):
+        if n in home:
+            return
+        home[n] = g
+        nd = ap["nodes"][n]
+        for i in nd["i"]:
+            visit(i, g)
+        for sg in nd["s"]:
+            for r in ap["graphs"][sg]["res"]:
+                visit(r, sg)
+
+    for r in ap["graphs"][0]["res"]:
+        visit(r, 0)
+
+    def chain(g):
+        c = [g]
+        seen = {g}
+        while c[-1] != 0 and c[-1] in owner and owner[c[-1]] in home:
+            nxt = home[owner[c[-1]]]
+            if nxt in seen:
+                break
+            c.append(nxt)
+            seen.add(nxt)
+        return c
+
+    depth = max((len(chain(g)) for g in range(len(ap["graphs"]))), default=1)
+    users: dict[int, set[int]] = {}
+    for n, nd in enumerate(ap["nodes"]):
+        if n in home:
+            for i in nd["i"]:
+                users.setdefault(i, set()).add(home[n])
+    for g, gr in enumerate(ap["graphs"]):
+        for r in gr["res"]:
+            users.setdefault(r, set()).add(g)
+    cross = False
+    for n, nd in enumerate(ap["nodes"]):
+        if nd["s"] and len(users.get(n, ())) >= 2:
+            us = list(users[n])
+            for a in us:
+                for b in us:
+                    ca, cb = chain(a), chain(b)
+                    if a != b and a not in cb and b not in ca and len(ca) != len(cb):
+                        cross = True
+    return {"depth": depth, "ctrl_cross": cross}
 
 
 def gen_cases(ck: core.Check) -> tuple[list[dict], dict]:
@@ -111,6 +188,15 @@ def gen_cases(ck: core.Check) -> tuple[list[dict], dict]:
         for d, sc in G.skeletons(3, 3, rng, sample=60):
             cases.append({"kind": "script", "script": sc, "descr": d, "family": "skeleton-k3"})
         stats["skeleton_k3_sampled"] = len(cases) - n0
+    # (i') control-flow outputs consumed from two further scopes, a value shared between the node's bodies
+    n0 = len(cases)
+    for d, sc in G.cross_skeletons(ck.pick(4, 5)):
+        cases.append({"kind": "script", "script": sc, "descr": d, "family": "cross-ctrl-output"})
+    stats["cross_ctrl_output_exhaustive_trees<=%d_bodies" % ck.pick(4, 5)] = len(cases) - n0
+    n0 = len(cases)
+    for d, sc in G.cross_skeletons(ck.pick(5, 6), rng, sample=ck.pick(500, 6000)):
+        cases.append({"kind": "script", "script": sc, "descr": d, "family": "cross-ctrl-output-sampled"})
+    stats["cross_ctrl_output_sampled"] = len(cases) - n0
     # (ii) seeded random programs
     n0 = len(cases)
     for i in range(ck.pick(2400, 12000)):
@@ -145,8 +231,12 @@ def variant_cases(ck: core.Check, results: list[dict]) -> list[dict]:
 def run_cases(ck: core.Check, cases: list[dict]) -> list[dict]:
     if len(cases) < 200:
         return [eval_case(c) for c in cases]
-    with mp.get_context("fork").Pool(12) as pool:
-        return pool.map(eval_case, cases, chunksize=max(1, len(cases) // 240))
+    try:
+        with mp.get_context("fork").Pool(12) as pool:
+            return pool.map(eval_case, cases, chunksize=max(1, len(cases) // 240))
+    except Exception as e:  # noqa: BLE001 - a dying worker: fall back to in-process evaluation
+        ck.notes.append(f"worker pool failed ({type(e).__name__}: {e}); evaluated in-process")
+        return [eval_case(c) for c in cases]
 
 
 def run(ck: core.Check, prove: bool = True):
@@ -180,7 +270,10 @@ def run(ck: core.Check, prove: bool = True):
     ck.cov["generated"]["lowlevel_variants"] = len(vcases)
     ck.log(f"{len(results)} programs realised and built with the real Builder")
 
-    todo = [r for r in results if "ap" in r]
+    infra = [r for r in results if "infra_error" in r]
+    if infra:
+        ck.broken("correspondence", f"harness: {len(infra)} case(s) could not be evaluated", infra[0]["infra_error"])
+    todo = [r for r in results if "ap" in r and "verdict" in r]
     try:
         answers = ck.driver().ask_many("C04", [L.ap_for_model(r["ap"]) for r in todo])
         if len(answers) != len(todo):
@@ -191,84 +284,102 @@ def run(ck: core.Check, prove: bool = True):
 
     stats = {
         "unrealisable": sum(1 for r in results if "unrealisable" in r),
+        "infra_errors": len(infra),
         "built": 0,
-        "error_classes": {},
-        "checker_rejections": 0,
+        "verdicts": {},
         "leaky_programs": 0,
         "reuse_programs": 0,
         "max_nodes": 0,
         "max_graphs": 0,
+        "max_depth": 0,
+        "ctrl_output_used_in_two_unrelated_scopes_of_different_depth": 0,
+        "initializer_scoped_in_a_body": 0,
         "families": {},
         "wf_false": 0,
+        "facets_compared": {},
+        "facets_unobservable": {},
     }
     mism = 0
+    mism_by: dict[str, int] = {}
+    unobs_first: dict[str, str] = {}
     fails: dict[str, tuple[int, dict, str]] = {}
+
+    def mismatch(which: str, ap, real, model):
+        nonlocal mism
+        mism += 1
+        mism_by[which] = mism_by.get(which, 0) + 1
+        if mism_by[which] <= 2:
+            ck.broken(
+                "correspondence",
+                f"Builder model vs real Builder: {which}",
+                json.dumps({"ap": L.ap_for_model(ap), "real": real, "model": model})[:1400],
+            )
+
     for r, m in zip(todo, answers):
-        ap, real = r["ap"], r["real"]
+        ap = r["ap"]
         fam = r["case"].get("family", "?")
         stats["families"][fam] = stats["families"].get(fam, 0) + 1
         stats["max_nodes"] = max(stats["max_nodes"], len(ap["nodes"]))
         stats["max_graphs"] = max(stats["max_graphs"], len(ap["graphs"]))
+        shape = _shape_stats(ap)
+        stats["max_depth"] = max(stats["max_depth"], shape["depth"])
+        stats["ctrl_output_used_in_two_unrelated_scopes_of_different_depth"] += int(shape["ctrl_cross"])
+        so = r["facets"].get("scope_of") or []
+        stats["initializer_scoped_in_a_body"] += int(any(v >= 0 and g != 0 and ap["nodes"][v]["k"] == "init" for v, g in so))
         stats["leaky_programs"] += int(r["leaky"])
         stats["reuse_programs"] += int(r["reuse"])
-        if real["ok"]:
-            stats["built"] += 1
-            if r["model_err"]:
-                stats["checker_rejections"] += 1
-        else:
-            stats["error_classes"][real["err"]] = stats["error_classes"].get(real["err"], 0) + 1
+        stats["verdicts"][r["verdict"]] = stats["verdicts"].get(r["verdict"], 0) + 1
+        stats["built"] += int(r["verdict"] == "ok")
         ck.count(json.dumps(L.ap_for_model(ap), sort_keys=True) if len(ap["graphs"]) > 1 else None)
-        if len(ck.samples) < 3 and real["ok"] and len(ap["graphs"]) >= 3:
-            ck.sample({"abstract_program": L.ap_for_model(ap), "real_scope_of": real["scope_of"], "real_trace": real["trace"]}, 3)
-        # --- correspondence
+        if len(ck.samples) < 3 and r["verdict"] == "ok" and len(ap["graphs"]) >= 3:
+            ck.sample({"abstract_program": L.ap_for_model(ap), "real_scope_of": r["facets"].get("scope_of"), "real_trace": r["trace"]}, 3)
+        for facet, why in r["unobservable"].items():
+            stats["facets_unobservable"][facet] = stats["facets_unobservable"].get(facet, 0) + 1
+            unobs_first.setdefault(facet, why)
+        # --- correspondence, facet by facet
         if m is not None:
             if "error" in m:
                 ck.broken("correspondence", "C04 driver request", str(m)[:200])
             else:
                 if not m.get("wf"):
                     stats["wf_false"] += 1
-                mv = L.model_view(m)
-                if mv != real:
-                    mism += 1
-                    which = "error-class" if not (mv["ok"] and real["ok"]) else next(
-                        k for k in ("graph_topo", "args_of", "scope_of", "scope_own", "trace") if mv[k] != real[k]
-                    )
-                    if mism <= 5:
-                        ck.broken(
-                            "correspondence",
-                            f"Builder model vs real Builder: {which}",
-                            json.dumps({"ap": L.ap_for_model(ap),
-                                        "real": {"ok": real["ok"], "err": real.get("err")} if which == "error-class" else {which: real[which]},
-                                        "model": {"ok": mv["ok"], "err": mv.get("err")} if which == "error-class" else {which: mv.get(which)}})[:1400],
-                        )
-                elif real["ok"] and bool(m["struct_ok"]) != (r["model_err"] is None):
-                    mism += 1
-                    ck.broken(
-                        "correspondence",
-                        "structural check (model) vs onnx.checker at the end of build",
-                        json.dumps({"ap": L.ap_for_model(ap), "model_struct_ok": m["struct_ok"], "real": r["model_err"]})[:1400],
-                    )
+                mverd = L.model_verdict(m)
+                if mverd != r["verdict"]:
+                    mismatch("error-class", ap, r["verdict"], mverd)
+                if r["internal_verdict"] is not None:
+                    want = "ok" if m.get("ok") else str(m.get("err"))
+                    if want != r["internal_verdict"]:
+                        mismatch("error-class of build_main", ap, r["internal_verdict"], want)
+                if m.get("ok"):
+                    mf = L.model_facets(m)
+                    if r["trace"] is not None:
+                        stats["facets_compared"]["trace"] = stats["facets_compared"].get("trace", 0) + 1
+                        if L.drop_initializers(ap, mf["trace"]) != r["trace"]:
+                            mismatch("trace", ap, r["trace"], mf["trace"])
+                    for facet, val in r["facets"].items():
+                        stats["facets_compared"][facet] = stats["facets_compared"].get(facet, 0) + 1
+                        if mf[facet] != val:
+                            mismatch(facet, ap, val, mf[facet])
         if r.get("public_same") is False:
-            mism += 1
-            ck.broken("correspondence", "spox.build (public) vs Builder.build_main + to_onnx_model: different verdict",
-                      json.dumps({"ap": L.ap_for_model(ap)})[:1400])
+            mismatch("spox.build (public) vs Graph.to_onnx_model: different verdict", ap, None, None)
         if r.get("twin_same") not in (None, True):
-            mism += 1
-            ck.broken("correspondence", "callback realisation vs low-level realisation of the same abstract program",
-                      json.dumps({"ap": L.ap_for_model(ap), "twin": r["twin_same"]})[:1400])
+            mismatch("callback realisation vs low-level realisation of the same abstract program", ap, r["twin_same"], None)
         # --- oracle verdicts
         for key, what in r["oracle"]:
             size = L.ap_size(ap)
             if key not in fails or size < fails[key][0]:
                 fails[key] = (size, r["case"], what)
+    for facet, n in stats["facets_unobservable"].items():
+        ck.broken("correspondence", f"{facet} not observable on {n} case(s): the Builder's internals changed shape", unobs_first[facet])
     if stats["wf_false"]:
         ck.broken("correspondence", "generated abstract program is not in creation order (harness)", str(stats["wf_false"]))
     ck.cov["correspondence_mismatches"] = mism
+    ck.cov["correspondence_mismatches_by_facet"] = mism_by
     ck.cov["stats"] = stats
     ck.exhaustive = False
     for key, (_, case, what) in sorted(fails.items()):
         ck.failure(key, what, case, how="realise the case (script: if_/loop callbacks; ap: low-level Graph API), build, inspect the ModelProto")
-    ck.log(f"correspondence mismatches: {mism}; oracle failure kinds: {sorted(fails)}")
+    ck.log(f"correspondence mismatches: {mism} {mism_by}; unobservable: {stats['facets_unobservable']}; oracle failure kinds: {sorted(fails)}")
 
 
 def replay(ck: core.Check, doc: dict) -> bool:
@@ -285,6 +396,9 @@ def replay(ck: core.Check, doc: dict) -> bool:
         return bool(ck.broken_items or ck.failures)
     case = doc["case"]
     r = eval_case(case)
+    if "infra_error" in r:
+        print("case could not be evaluated:", r["infra_error"])
+        return False
     if "unrealisable" in r:
         print("case cannot be constructed:", r["unrealisable"])
         return False
